@@ -783,17 +783,22 @@ def rule_statement_blocks(chk, prog, tier):
                     if ro in role and role[ro] != sc: problems.append('the %s scope is not one scope' % ro)
                     role.setdefault(ro, sc)
                 if len(set(role.values())) != len(role): problems.append('two of %s share one scope: a declaration in one is visible in the other' % sorted(role))
+                def ancestors(x):
+                    out_ = []
+                    while x in parent: x = parent[x]; out_.append(x)
+                    return out_
                 stmt_sc = role.get('stmt') or parent.get(role.get('sub1'))
-                if parent.get(stmt_sc) != outer: problems.append('the statement scope is not a direct child of the enclosing block')
+                if outer not in ancestors(stmt_sc): problems.append('the statement scope is not inside the enclosing block')
                 for ro in ('sub1', 'sub2'):
-                    if ro in role and parent.get(role[ro]) != stmt_sc: problems.append('the scope of %s is not a child of the statement scope' % ro)
+                    if ro in role and stmt_sc not in ancestors(role[ro]): problems.append('the scope of %s is not strictly inside the statement scope' % ro)
+                if 'sub1' in role and 'sub2' in role and (role['sub1'] in ancestors(role['sub2']) or role['sub2'] in ancestors(role['sub1'])): problems.append('one substatement scope encloses the other')
         elif want is None and not problems:
             # nested statements: every expression in a scope of its own chain; no two substatement scopes shared is implied by open/close pairing above; require one distinct scope per use that is a leaf use
             leaf = [sc for k_, sc in uses]
             n_open = len(parent)
             n_if = shape.split().count('if') + shape.split().count('while')
             n_sub = shape.split().count('if') + shape.split().count('else') + shape.split().count('while')
-            if n_open != n_if + n_sub: problems.append('%d scopes opened, expected %d (one per statement and one per substatement)' % (n_open, n_if + n_sub))
+            if n_open < n_if + n_sub: problems.append('%d scopes opened, expected at least %d (one per statement and one per substatement)' % (n_open, n_if + n_sub))
         r.instance(not problems, key, 'stmt.c:stmt', '; '.join(dict.fromkeys(problems)) or 'statement and substatement scopes as 6.8.4p3 / 6.8.5p5 require')
     r.exhaustive = False
 
